@@ -3167,7 +3167,7 @@ class Set(Collection):
     def db_reverse_remove(attr, objects, item):
         for obj in objects:
             setdata = obj._vals_[attr]
-            setdata.remove(item)
+            setdata.discard(item)  # an unflushed local reassignment may already have removed the item
     def get_m2m_columns(attr, is_reverse=False):
         reverse = attr.reverse
         entity = attr.entity
